@@ -2,7 +2,7 @@
    Property theorems only; each is closed by [exact] of a lemma proved in
    C11/Lemmas.v or C11/HeapLemmas.v and followed by its assumptions. *)
 From Coq Require Import ZArith List Bool Permutation.
-From V Require Import C11.Model C11.Spec C11.HeapModel C11.Lemmas C11.HeapLemmas.
+From V Require Import C11.Model C11.Spec C11.HeapModel C11.Lemmas C11.HeapLemmas C11.Laws.
 Import ListNotations.
 Open Scope Z_scope.
 
@@ -43,6 +43,19 @@ Theorem C11_victims_prefix_refuted :
                            voting p = true /\ ~ In x (v_cands (s_ans p)).
 Proof. exact victims_prefix_refuted. Qed.
 Print Assumptions C11_victims_prefix_refuted.
+
+(* the executable law evaluated on the Go results accepts the model's own
+   answer for every layout, and what it accepts is sound: law and theorem speak
+   about the same predicate *)
+Theorem C11_law_victims_model : forall ts, law_victims ts (victims_fixed ts) = true.
+Proof. exact law_victims_model. Qed.
+Print Assumptions C11_law_victims_model.
+
+Theorem C11_law_victims_sound : forall ts got x t,
+  law_victims ts got = true -> find has_agreement ts = Some t -> In x got ->
+  forall p, In p t -> voting p = true -> In x (v_cands (s_ans p)).
+Proof. exact law_victims_sound. Qed.
+Print Assumptions C11_law_victims_sound.
 
 (* ---- boolean gates ---- *)
 
